@@ -183,4 +183,360 @@ def liftC (x : Except XErr CompStB) : Except XErr CompSt :=
   | .ok s => .ok s.plain
   | .error e => .error e
 
+def QL (l : List Node) : Prop := ∀ x ∈ l, quietNode x = true
+def QLL (l : List (List Node)) : Prop := ∀ t ∈ l, QL t
+
+theorem heads_spec : ∀ (todos : List (List Node)), (∀ t ∈ todos, t ≠ []) → QLL todos →
+    (todos.filterMap (·.head?)).length = todos.length ∧ QL (todos.filterMap (·.head?))
+  | [], _, _ => ⟨rfl, by intro x hx; simp at hx⟩
+  | t :: ts, hne, hq => by
+    match t, hne t (by simp), hq t (by simp) with
+    | n :: tl, _, hqt =>
+      obtain ⟨a, b⟩ := heads_spec ts (fun t' h => hne t' (by simp [h])) (fun t' h => hq t' (by simp [h]))
+      simp only [List.filterMap_cons, List.head?_cons, List.length_cons]
+      refine ⟨by rw [a], ?_⟩
+      intro x hx
+      simp only [List.mem_cons] at hx
+      rcases hx with hx | hx
+      · rw [hx]; exact hqt n (by simp)
+      · exact b x hx
+
+theorem applied_facts (T : Tables) (edition : Nat) : ∀ (ddos : List DDO) (heads : List Node),
+    ddos.length = heads.length → (∀ d ∈ ddos, quietDDO d) → QL heads →
+    ((List.zipWith (fun ddo n => applyTables2node T edition ddo n) ddos heads).map (·.1)).length = heads.length ∧
+    (∀ d ∈ (List.zipWith (fun ddo n => applyTables2node T edition ddo n) ddos heads).map (·.1), quietDDO d) ∧
+    ((List.zipWith (fun ddo n => applyTables2node T edition ddo n) ddos heads).map (·.2.1)).length = heads.length ∧
+    QL ((List.zipWith (fun ddo n => applyTables2node T edition ddo n) ddos heads).map (·.2.1))
+  | [], [], _, _, _ => by simp [QL]
+  | d :: ds, n :: ns, hl, hd, hq => by
+    obtain ⟨a, b, c, e⟩ := applied_facts T edition ds ns (by simpa using hl) (fun d' h => hd d' (by simp [h]))
+      (fun x h => hq x (by simp [h]))
+    have hdq := hd d (by simp)
+    have hnq := hq n (by simp)
+    simp only [List.zipWith_cons_cons, List.map_cons, List.length_cons]
+    refine ⟨by rw [a], ?_, by rw [c], ?_⟩
+    · intro d' hd'
+      simp only [List.mem_cons] at hd'
+      rcases hd' with h | h
+      · rw [h]; exact applyTables2node_quietDDO T edition d n hdq hnq
+      · exact b d' h
+    · intro x hx
+      simp only [List.mem_cons] at hx
+      rcases hx with h | h
+      · rw [h, applyTables2node_quietNode]; exact hnq
+      · exact e x h
+  | [], _ :: _, hl, _, _ => by simp at hl
+  | _ :: _, [], hl, _, _ => by simp at hl
+
+theorem zipCons_facts : ∀ (col : List Node) (dones : List (List Node)), col.length = dones.length → QL col → QLL dones →
+    (List.zipWith (fun n d => n :: d) col dones).length = dones.length ∧ QLL (List.zipWith (fun n d => n :: d) col dones)
+  | [], [], _, _, _ => by simp [QLL]
+  | n :: ns, d :: ds, hl, hq, hd => by
+    obtain ⟨a, b⟩ := zipCons_facts ns ds (by simpa using hl) (fun x h => hq x (by simp [h])) (fun t h => hd t (by simp [h]))
+    simp only [List.zipWith_cons_cons, List.length_cons]
+    refine ⟨by rw [a], ?_⟩
+    intro t ht
+    simp only [List.mem_cons] at ht
+    rcases ht with h | h
+    · rw [h]; intro x hx
+      simp only [List.mem_cons] at hx
+      rcases hx with h' | h'
+      · rw [h']; exact hq n (by simp)
+      · exact hd d (by simp) x h'
+    · exact b t h
+  | [], _ :: _, hl, _, _ => by simp at hl
+  | _ :: _, [], hl, _, _ => by simp at hl
+
+theorem tails_facts (todos : List (List Node)) (hq : QLL todos) :
+    (todos.map (·.drop 1)).length = todos.length ∧ QLL (todos.map (·.drop 1)) := by
+  refine ⟨by simp, ?_⟩
+  intro t ht
+  simp only [List.mem_map] at ht
+  obtain ⟨t0, h0, rfl⟩ := ht
+  intro x hx
+  exact hq t0 h0 x (List.mem_of_mem_drop hx)
+
+theorem crefval_facts (T : Tables) : ∀ (ddos : List DDO) (col : List Node), ddos.length = col.length →
+    (∀ d ∈ ddos, quietDDO d) →
+    (List.zipWith (fun ddo n => applyOpCrefval T ddo n) ddos col).length = col.length ∧
+    ∀ d ∈ List.zipWith (fun ddo n => applyOpCrefval T ddo n) ddos col, quietDDO d
+  | [], [], _, _ => by simp
+  | d :: ds, n :: ns, hl, hd => by
+    obtain ⟨a, b⟩ := crefval_facts T ds ns (by simpa using hl) (fun d' h => hd d' (by simp [h]))
+    simp only [List.zipWith_cons_cons, List.length_cons]
+    refine ⟨by rw [a], ?_⟩
+    intro d' hd'
+    simp only [List.mem_cons] at hd'
+    rcases hd' with h | h
+    · rw [h]; exact applyOpCrefval_quiet T d n (hd d (by simp))
+    · exact b d' h
+  | [], _ :: _, hl, _ => by simp at hl
+  | _ :: _, [], hl, _ => by simp at hl
+
+theorem readBody_df (ty : DType) (r1 r2 : R) (col2 col3 : List Node) (g : Range)
+    (h : readBody ty r1 col2 g = some (r2, col3)) : SameDF col2 col3 := by
+  unfold readBody at h
+  split at h
+  · exact getCcittCompressed_df _ _ _ _ _ h
+  · exact getIeeeCompressed_df _ _ _ _ _ h
+  · exact getNumericCompressed_df _ _ _ _ _ h
+  · exact getNumericCompressed_df _ _ _ _ _ h
+  · exact getNumericCompressed_df _ _ _ _ _ h
+  · exact getNumericCompressed_df _ _ _ _ _ h
+  · simp only [Option.some.injEq, Prod.mk.injEq] at h
+    obtain ⟨_, rfl⟩ := h
+    exact SameDF.refl _
+
+theorem foldl_expStep_error (T : Tables) (f s4max : Nat) (e : XErr) :
+    ∀ ps, List.foldl (expStep T f s4max) (.error e) ps = .error e
+  | [] => rfl
+  | p :: ps => by simp only [List.foldl_cons, expStep]; exact foldl_expStep_error T f s4max e ps
+
+theorem foldl_expStep (T : Tables) (hT : QClosed T) (f s4max : Nat) :
+    ∀ (ps : List (List Node × Node × List Node)) (ds ts : List (List Node)) (inv : Bool)
+      (ds' ts' : List (List Node)) (inv' : Bool),
+    (∀ p ∈ ps, QL p.1 ∧ quietNode p.2.1 = true ∧ QL p.2.2) → QLL ds → QLL ts → ds.length = ts.length →
+    List.foldl (expStep T f s4max) (.ok (ds, ts, inv)) ps = .ok (ds', ts', inv') →
+    QLL ds' ∧ QLL ts' ∧ ds'.length = ts'.length ∧ ts'.length = ts.length + ps.length := by
+  intro ps
+  induction ps with
+  | nil =>
+    intro ds ts inv ds' ts' inv' _ hd ht hl h
+    simp only [List.foldl_nil, Except.ok.injEq, Prod.mk.injEq] at h
+    obtain ⟨rfl, rfl, _⟩ := h
+    exact ⟨hd, ht, hl, by simp⟩
+  | cons p ps ih =>
+    intro ds ts inv ds' ts' inv' hp hd ht hl h
+    obtain ⟨hp1, hp2, hp3⟩ := hp p (by simp)
+    simp only [List.foldl_cons] at h
+    -- one step
+    cases hs : expStep T f s4max (.ok (ds, ts, inv)) p with
+    | error e => rw [hs, foldl_expStep_error] at h; exact absurd h (by simp)
+    | ok q =>
+      obtain ⟨ds1, ts1, inv1⟩ := q
+      rw [hs] at h
+      unfold expStep at hs
+      simp only [] at hs
+      split at hs
+      · rename_i rnode dprev hp1e
+        split at hs
+        · exact absurd hs (by simp)
+        · rename_i lst eflag hx
+          split at hs
+          · rename_i a b more
+            simp only [Except.ok.injEq, Prod.mk.injEq] at hs
+            obtain ⟨rfl, rfl, _⟩ := hs
+            have hq1 : QL (rnode :: dprev) := by rw [← hp1e]; exact hp1
+            have hl' := hT f (some s4max) rnode p.2.1 p.2.2 (a :: b :: more) eflag
+              (by intro x hx'
+                  simp only [List.mem_cons] at hx'
+                  rcases hx' with h1 | h1 | h1
+                  · rw [h1]; exact hq1 rnode (by simp)
+                  · rw [h1]; exact hp2
+                  · exact hp3 x h1) hx
+            have := ih ((b :: a :: dprev) :: ds) (more :: ts) _ ds' ts' inv'
+              (fun p' hp' => hp p' (by simp [hp']))
+              (by intro t ht'
+                  simp only [List.mem_cons] at ht'
+                  rcases ht' with h1 | h1
+                  · rw [h1]; intro x hx'
+                    simp only [List.mem_cons] at hx'
+                    rcases hx' with h2 | h2 | h2
+                    · rw [h2]; exact hl' b (by simp)
+                    · rw [h2]; exact hl' a (by simp)
+                    · exact hq1 x (by simp [h2])
+                  · exact hd t h1)
+              (by intro t ht'
+                  simp only [List.mem_cons] at ht'
+                  rcases ht' with h1 | h1
+                  · rw [h1]; intro x hx'; exact hl' x (by simp [hx'])
+                  · exact ht t h1)
+              (by simp [hl]) h
+            obtain ⟨r1, r2, r3, r4⟩ := this
+            exact ⟨r1, r2, r3, by rw [r4]; simp; omega⟩
+          · exact absurd hs (by simp)
+      · exact absurd hs (by simp)
+
+theorem decodeCompressedLoopB_quiet (T : Tables) (edition s4max : Nat) (g : Range) (hT : QClosed T) :
+    ∀ (fuel : Nat) (st : CompStB), CInv st →
+    liftC (decodeCompressedLoopB T edition s4max g fuel st) = decodeCompressedLoop T edition s4max g fuel st.plain := by
+  intro fuel
+  induction fuel with
+  | zero => intro st _; simp [decodeCompressedLoopB, decodeCompressedLoop, liftC]
+  | succ f ih =>
+    intro st hI
+    obtain ⟨r, invalid, ddos, bms, dones, todos, pend, early⟩ := st
+    obtain ⟨hIb, hId, hIt, hIdn, hl1, hl2, hl3⟩ := hI
+    simp only [] at hIb hId hIt hIdn hl1 hl2 hl3
+    unfold decodeCompressedLoopB decodeCompressedLoop
+    simp only [CompStB.plain]
+    cases todos with
+    | nil => simp [liftC, CompStB.plain]
+    | cons todo0 trest =>
+      simp only []
+      cases todo0 with
+      | nil => simp [liftC, CompStB.plain]
+      | cons cb tl0 =>
+        simp only []
+        by_cases hemp : (List.any ((cb :: tl0) :: trest) (·.isEmpty)) = true
+        · simp [hemp, liftC]
+        · simp only [hemp, Bool.false_eq_true, if_false]
+          have hne : ∀ t ∈ (cb :: tl0) :: trest, t ≠ [] := by
+            intro t ht hte
+            apply hemp
+            rw [List.any_eq_true]
+            exact ⟨t, ht, by rw [hte]; rfl⟩
+          have hap := applied_quiet T edition ((cb :: tl0) :: trest) dones ddos bms hl1 hl2 hl3 hIb hId hIt hne
+          obtain ⟨hh1, hh2⟩ := heads_spec ((cb :: tl0) :: trest) hne hIt
+          obtain ⟨fa1, fa2, fa3, fa4⟩ := applied_facts T edition ddos _ (by rw [hh1]; exact hl3) hId hh2
+          rw [hh1] at fa1 fa3
+          obtain ⟨ft1, ft2⟩ := tails_facts ((cb :: tl0) :: trest) hIt
+          rw [hap]
+          simp only [List.map_map, Function.comp_def, List.any_map]
+          generalize hA : List.zipWith (fun ddo n => applyTables2node T edition ddo n) ddos
+              (List.filterMap (fun x => x.head?) ((cb :: tl0) :: trest)) = A at fa1 fa2 fa3 fa4 ⊢
+          have hbl : (List.map (fun (_ : DDO × Node × Bool) => ({} : BM)) A).length = (List.map (fun x => x.1) A).length := by simp
+          have hbq : ∀ b ∈ List.map (fun (_ : DDO × Node × Bool) => ({} : BM)) A, b = ({} : BM) := by
+            intro b hb; simp only [List.mem_map] at hb; obtain ⟨_, _, rfl⟩ := hb; rfl
+          generalize List.map (fun (_ : DDO × Node × Bool) => ({} : BM)) A = bms1 at hbl hbq ⊢
+          generalize hd1 : List.map (fun x => x.1) A = ddos1 at fa1 fa2 hbl ⊢
+          generalize hc1 : List.map (fun x => x.2.1) A = col1 at fa3 fa4 ⊢
+          generalize (A.any fun x => x.2.2) = e1
+          generalize htl : List.map (fun x => List.drop 1 x) ((cb :: tl0) :: trest) = tails at ft1 ft2 ⊢
+          generalize hn : ((cb :: tl0) :: trest).length = n at hl2 hl3 fa1 fa3 ft1
+          clear hap hA hh1 hh2 hd1 hc1 htl hn hne hemp
+          have hdq : QLL dones := hIdn
+          by_cases hsk : cb.flags.skipped = true
+          · simp only [hsk, if_true]
+            obtain ⟨z1, z2⟩ := zipCons_facts col1 dones (by omega) fa4 hdq
+            have hS : CInv (CompStB.mk r (invalid || e1) ddos1 bms1
+                (List.zipWith (fun x1 x2 => x1 :: x2) col1 dones) tails pend early) :=
+              ⟨hbq, fa2, ft2, z2, hbl, by show (List.zipWith _ col1 dones).length = tails.length; omega,
+               by show ddos1.length = tails.length; omega⟩
+            rw [ih _ hS]
+            rfl
+          · simp only [hsk, Bool.false_eq_true, if_false]
+            cases haf : getAfCompressed r col1 g with
+            | none => simp [liftC, CompStB.plain]
+            | some p =>
+              obtain ⟨r1, col2⟩ := p
+              have d12 := getAfCompressed_df _ _ _ _ _ haf
+              have q2 : QL col2 := SameDF.quiet d12 fa4
+              have l2 : col2.length = n := by rw [SameDF.length d12]; exact fa3
+              simp only []
+              cases hbd : readBody (col1.headD cb).enc.type r1 col2 g with
+              | none =>
+                simp only []
+                by_cases hc : pend = true ∧ (Desc.f cb.desc = 0 ∧ Desc.x cb.desc = 31) ∧ (col1.headD cb).enc.type = DType.numeric
+                · simp only [hc, and_self, if_true]
+                  generalize List.foldl (expStep T f s4max) (Except.ok ([], [], false))
+                    (dones.zip ((numericPartial r1 col2 g).zip tails)) = fr
+                  cases fr with
+                  | error e => cases e <;> simp [liftC, CompStB.plain]
+                  | ok q =>
+                    obtain ⟨ds, ts, iv⟩ := q
+                    simp only []
+                    split <;> simp [liftC, CompStB.plain]
+                · simp only [hc, if_false]
+                  simp [liftC, CompStB.plain]
+              | some p2 =>
+                obtain ⟨r2, col3⟩ := p2
+                have d23 := readBody_df _ _ _ _ _ _ hbd
+                have q3 : QL col3 := SameDF.quiet d23 q2
+                have l3 : col3.length = n := by rw [SameDF.length d23]; exact l2
+                simp only []
+                obtain ⟨c1, c2⟩ := crefval_facts T ddos1 col3 (by omega) fa2
+                by_cases hc : pend = true ∧ Desc.f cb.desc = 0 ∧ Desc.x cb.desc = 31
+                · simp only [hc, and_self, if_true]
+                  cases hfr : List.foldl (expStep T f s4max) (Except.ok ([], [], false)) (dones.zip (col3.zip tails)) with
+                  | error e => cases e <;> simp [liftC, CompStB.plain]
+                  | ok q =>
+                    obtain ⟨ds, ts, iv⟩ := q
+                    simp only []
+                    split
+                    · simp [liftC, CompStB.plain]
+                    · have hps : ∀ p ∈ dones.zip (col3.zip tails), QL p.1 ∧ quietNode p.2.1 = true ∧ QL p.2.2 := by
+                        intro p hp
+                        obtain ⟨m1, m2⟩ := List.of_mem_zip hp
+                        obtain ⟨m3, m4⟩ := List.of_mem_zip m2
+                        exact ⟨hdq _ m1, q3 _ m3, ft2 _ m4⟩
+                      obtain ⟨g1, g2, g3, g4⟩ := foldl_expStep T hT f s4max _ [] [] false ds ts iv hps
+                        (by intro t ht; simp at ht) (by intro t ht; simp at ht) rfl hfr
+                      have g5 : ts.length = n := by
+                        rw [g4]; simp only [List.length_nil, List.length_zip, Nat.zero_add]; omega
+                      have hS : CInv (CompStB.mk r2 ((invalid || e1) || iv)
+                          (List.zipWith (fun ddo n => applyOpCrefval T ddo n) ddos1 col3) bms1 ds.reverse ts.reverse false false) :=
+                        ⟨hbq, c2, by intro t ht; exact g2 t (List.mem_reverse.mp ht),
+                         by intro t ht; exact g1 t (List.mem_reverse.mp ht),
+                         by show bms1.length = (List.zipWith _ ddos1 col3).length; omega,
+                         by show ds.reverse.length = ts.reverse.length; simp [g3],
+                         by show (List.zipWith _ ddos1 col3).length = ts.reverse.length; simp only [List.length_reverse]; omega⟩
+                      rw [ih _ hS]
+                      rfl
+                · simp only [hc, if_false]
+                  obtain ⟨z1, z2⟩ := zipCons_facts col3 dones (by omega) q3 hdq
+                  have hS : ∀ pd, CInv (CompStB.mk r2 (invalid || e1)
+                      (List.zipWith (fun ddo n => applyOpCrefval T ddo n) ddos1 col3) bms1
+                      (List.zipWith (fun x1 x2 => x1 :: x2) col3 dones) tails pd false) := fun pd =>
+                    ⟨hbq, c2, ft2, z2,
+                     by show bms1.length = (List.zipWith _ ddos1 col3).length; omega,
+                     by show (List.zipWith _ col3 dones).length = tails.length; omega,
+                     by show (List.zipWith _ ddos1 col3).length = tails.length; omega⟩
+                  rw [ih _ (hS _)]
+                  rfl
+
+
+
+theorem decodeCompressedAllB_quiet (T : Tables) (edition : Nat) (enforce : Enforce) (fuel s4max : Nat) (bsq : List Node)
+    (err : Bool) (g : Range) (r0 : R) (hT : QClosed T) (hq : ∀ x ∈ bsq, quietNode x = true) :
+    decodeCompressedAllB T edition enforce fuel s4max bsq err g r0 =
+      decodeCompressedAll T edition enforce fuel s4max bsq err g r0 := by
+  unfold decodeCompressedAllB decodeCompressedAll
+  simp only []
+  split
+  · rfl
+  · have hI : CInv (CompStB.mk r0 err (List.replicate g.count { enforce := enforce })
+        (List.replicate g.count {}) (List.replicate g.count []) (List.replicate g.count bsq) false false) :=
+      ⟨by intro b hb; exact (List.eq_of_mem_replicate hb),
+       by intro d hd; rw [List.eq_of_mem_replicate hd]; exact quietDDO_fresh enforce,
+       by intro t' ht x hx'; rw [List.eq_of_mem_replicate ht] at hx'; exact hq x hx',
+       by intro t' ht x hx'; rw [List.eq_of_mem_replicate ht] at hx'; simp at hx',
+       by simp, by simp, by simp⟩
+    have := decodeCompressedLoopB_quiet T edition s4max g hT fuel _ hI
+    simp only [CompStB.plain] at this
+    rw [← this]
+    cases decodeCompressedLoopB T edition s4max g fuel _ with
+    | error e => rfl
+    | ok st => rfl
+
+/-- **the decoder's data part with the bit-map head is the plain one**, compressed or not, as long as
+the expanded template holds no 2 36 YYY operator and no class 33 element -/
+theorem decodeDataB_quiet (T : Tables) (fuel : Nat) (t : Template) (enforce : Enforce) (nsub : Nat)
+    (compressed : Bool) (s4max : Nat) (data : List Nat) (from0 to0 : Int) (hT : QClosed T)
+    (hE : ∀ bsq0, expandSequence T fuel (OP_EXPAND_DELAY_REPL ||| OP_ZDRC_SKIP) t.gabarit = .ok bsq0 →
+            ∀ x ∈ bsq0, quietNode x = true) :
+    decodeDataB T fuel t enforce nsub compressed s4max data from0 to0 =
+      decodeData T fuel t enforce nsub compressed s4max data from0 to0 := by
+  cases compressed with
+  | false => exact decodeDataB_quiet_uncompressed T fuel t enforce nsub s4max data from0 to0 hT hE
+  | true =>
+    unfold decodeDataB decodeData
+    split
+    · rfl
+    · split
+      · rfl
+      · simp only []
+        cases hx : expandSequence T fuel (OP_EXPAND_DELAY_REPL ||| OP_ZDRC_SKIP) t.gabarit with
+        | error e => cases e <;> rfl
+        | ok bsq0 =>
+          have hq0 := hE bsq0 hx
+          obtain ⟨e1, e2⟩ := applyTablesAllB_quiet T t.edition bsq0 { enforce := enforce } [] (quietDDO_fresh enforce) hq0
+          simp only []
+          rw [e1]
+          generalize applyTablesAll T t.edition { enforce := enforce } bsq0 = a at e2
+          obtain ⟨bsq, ddoF, err⟩ := a
+          simp only [] at e2 ⊢
+          simp only [Bool.not_true, Bool.false_eq_true, if_false]
+          rw [decodeCompressedAllB_quiet T t.edition enforce fuel s4max bsq err _ _ hT e2]
+
 end Bufr
